@@ -157,6 +157,13 @@ def family_sel(tier='quick'):
     out.append(_sel('floating-node', ['A', 'P0', 'P1', 'F'], [], ['A'], [('C1', 'A', ['P0', 'P1'])]))
     out.append(_sel('floating-chain', ['A', 'P0', 'P1', 'F', 'G'], [('F', 'G'), ('G', 'P1')], ['A'],
                     [('C1', 'A', ['P0', 'P1'])]))
+    # four / five options of which the unselected ones derive each other (in a loop; in a chain)
+    out.append(_sel('four-options-deriving-loop', ['S', 'A', 'B', 'C', 'D', 'XA', 'XB', 'XC', 'XD'],
+                    [('B', 'C'), ('C', 'D'), ('D', 'B'), ('A', 'XA'), ('B', 'XB'), ('C', 'XC'), ('D', 'XD')], ['S'],
+                    [('C1', 'S', ['A', 'B', 'C', 'D'])]))
+    out.append(_sel('five-options-deriving-chain', ['S', 'K1', 'K2', 'K3', 'K4', 'K5', 'I1', 'I2', 'I3', 'I4', 'I5'],
+                    [('K5', 'K4'), ('K4', 'K3'), ('K3', 'K2'), ('K2', 'K1')] + [(f'K{i}', f'I{i}') for i in range(1, 6)], ['S'],
+                    [('C1', 'S', ['K1', 'K2', 'K3', 'K4', 'K5'])]))
     # stand-alone start nodes (no edges at all) next to a chain and a choice
     out.append(_sel('standalone-starts', ['A', 'B', 'P0', 'P1', 'L0', 'L1', 'L2'], [('A', 'B')], ['A', 'L0', 'L1', 'L2'],
                     [('C1', 'B', ['P0', 'P1'])]))
